@@ -75,10 +75,6 @@ Definition doc_allowed (tbl : combo_table) (keys : list key) (cur : key) (prev :
 
 Fixpoint increasingb (l : list BinNums.Z) : bool :=
   match l with a :: ((b :: _) as tl) => BinInt.Z.ltb a b && increasingb tl | _ => true end.
-(* guard under which _is_allowed IS the documented rule: at most two peripheral features, listed in
-   increasing order of their count (modelsearch sorts the feature dictionary) *)
-Definition g_periph_sorted (keys : list key) : bool :=
-  Nat.leb (length (filter is_periph keys)) 2 && increasingb (n_all keys).
 
 (* paths built with the documented rule *)
 Inductive DocChain (tbl : combo_table) (keys : list key) : list key -> Prop :=
